@@ -2,13 +2,26 @@
 //!
 //! Protocol: see /verif/lean/LaunchpadModel/Driver/C13.lean. Every line carries `now=` (block time, ns) and is
 //! executable from its text alone. `inst` instantiates a fresh contract which becomes the current one when it succeeds.
-use cosmwasm_std::{Addr, Coin, Timestamp};
+//!
+//! Output lines are `primary ## drift` (see the driver): only what C13 constrains is compared.
+//!
+//! Where the monitors take their truth from (never from the query that is being judged):
+//! * the stage list and the member map are read from the contract's STORAGE through the crates' own typed
+//!   `state::{CONFIG, WHITELIST_STAGES, MERKLE_ROOTS}` constants (no key layout, no JSON field defaults); if that is
+//!   impossible the stage/member queries are used instead and the run says so (`snap-ok:query` + note); if even that fails the
+//!   class `snap:none` + a note record it and the coverage floor (`snap-ok:`) fails the run when it never worked — never silently off;
+//! * a GHOST built only from the message lines the harness sent and the accept/reject it got back (which stages it
+//!   configured, which addresses it put into which stage) — membership answers are judged against the ghost, and the
+//!   storage itself is cross-checked against it after every message;
+//! * the message surface is enumerated at RUN TIME from `schema_for!(ExecuteMsg)` of each crate.
+use cosmwasm_std::{Addr, Coin, Order, Timestamp};
 use cw_multi_test::{BankSudo, Executor, SudoMsg};
 use lp_harness::boxes::{self, App};
 use lp_harness::world::*;
 use lp_harness::*;
 use rs_merkle::{Hasher, MerkleTree};
 use serde_json::{json, Value};
+use std::collections::{BTreeMap, BTreeSet};
 
 const T0: u64 = 1_700_000_000_000_000_000;
 
@@ -48,6 +61,8 @@ fn name(id: u64) -> String {
 fn name_id(s: &str) -> u64 {
     if s == "X" {
         0
+    } else if let Some(n) = s.strip_prefix("acct").and_then(|k| k.parse::<u64>().ok()) {
+        n
     } else {
         addr_id(s)
     }
@@ -103,16 +118,29 @@ impl St {
         }
         o
     }
-    fn from_json(j: &Value) -> St {
-        St {
+    /// a stage out of a query answer / a serialised `state::Stage`. STRICT on what C13 is about (window, price): a stage
+    /// whose window or price cannot be read is `None` (never a silent 0); name / limits are optional.
+    fn from_json(j: &Value) -> Option<St> {
+        Some(St {
             name: stage_name_id(j["name"].as_str().unwrap_or("")),
-            start: j["start_time"].as_str().unwrap_or("0").parse().unwrap_or(0),
-            stop: j["end_time"].as_str().unwrap_or("0").parse().unwrap_or(0),
-            denom: denom_id(j["mint_price"]["denom"].as_str().unwrap_or("")),
-            price: j["mint_price"]["amount"].as_str().unwrap_or("0").parse().unwrap_or(0),
+            start: j["start_time"].as_str()?.parse().ok()?,
+            stop: j["end_time"].as_str()?.parse().ok()?,
+            denom: denom_id(j["mint_price"]["denom"].as_str()?),
+            price: j["mint_price"]["amount"].as_str()?.parse().ok()?,
             pal: j["per_address_limit"].as_u64().unwrap_or(0),
             mcl: j["mint_count_limit"].as_u64(),
-        }
+        })
+    }
+    /// primary projection: window, mint price, per-address limit
+    fn p(&self) -> String {
+        format!("{}:{}:{}:{}:{}", self.start, self.stop, self.denom, self.price, self.pal)
+    }
+    /// drift part: name, mint-count limit
+    fn x(&self) -> String {
+        format!("{}:{}", self.name, fmt_opt(&self.mcl))
+    }
+    fn same_p(&self, o: &St) -> bool {
+        self.p() == o.p()
     }
     fn contains(&self, t: u64) -> bool {
         self.start <= t && t <= self.stop
@@ -214,15 +242,133 @@ fn root_to_nat(hexs: &str) -> Option<u128> {
     Some(u128::from_be_bytes(arr))
 }
 
+// ------------------------------------------------------------------------------------------------ the message surface (run time)
+
+/// the `ExecuteMsg` variants of one crate as enumerated from its JSON schema at run time
+struct Surface {
+    /// (variant name, schema of its payload or Null for a unit variant)
+    variants: Vec<(String, Value)>,
+    defs: Value,
+}
+
+/// variant names this harness has a protocol op for
+fn known_variants(v: V) -> &'static [(&'static str, &'static str)] {
+    match v {
+        V::Merkle => &[("update_stage_config", "update_stage"), ("update_admins", "update_admins"), ("freeze", "freeze")],
+        _ => &[
+            ("add_stage", "add_stage"),
+            ("remove_stage", "remove_stage"),
+            ("add_members", "add_members"),
+            ("remove_members", "remove_members"),
+            ("update_stage_config", "update_stage"),
+            ("increase_member_limit", "increase_limit"),
+            ("update_admins", "update_admins"),
+            ("freeze", "freeze"),
+        ],
+    }
+}
+
+fn surface_of(v: V) -> Surface {
+    let root = match v {
+        V::Plain => serde_json::to_value(cosmwasm_schema::schema_for!(sg_tiered_whitelist::msg::ExecuteMsg)),
+        V::Flex => serde_json::to_value(cosmwasm_schema::schema_for!(sg_tiered_whitelist_flex::msg::ExecuteMsg)),
+        V::Merkle => serde_json::to_value(cosmwasm_schema::schema_for!(tiered_whitelist_merkletree::msg::ExecuteMsg)),
+    }
+    .unwrap_or(Value::Null);
+    let mut variants = vec![];
+    for alt in root["oneOf"].as_array().or(root["anyOf"].as_array()).cloned().unwrap_or_default() {
+        if let Some(names) = alt["enum"].as_array() {
+            for n in names {
+                if let Some(n) = n.as_str() {
+                    variants.push((n.to_string(), Value::Null));
+                }
+            }
+        } else if let Some(props) = alt["properties"].as_object() {
+            for (k, sch) in props {
+                variants.push((k.clone(), sch.clone()));
+            }
+        }
+    }
+    Surface { variants, defs: root["definitions"].clone() }
+}
+
+/// smallest JSON value the schema admits: required fields only, integers = `int`, strings = `text`, options = null
+fn minimal(schema: &Value, defs: &Value, int: u64, text: &str, depth: u32) -> Value {
+    if depth > 10 {
+        return Value::Null;
+    }
+    if let Some(r) = schema["$ref"].as_str() {
+        let name = r.rsplit('/').next().unwrap_or("");
+        return minimal(&defs[name], defs, int, text, depth + 1);
+    }
+    for key in ["allOf", "anyOf", "oneOf"] {
+        if let Some(a) = schema[key].as_array() {
+            if key != "allOf" && a.iter().any(|x| x["type"] == "null") {
+                return Value::Null;
+            }
+            if let Some(first) = a.first() {
+                return minimal(first, defs, int, text, depth + 1);
+            }
+        }
+    }
+    if let Some(e) = schema["enum"].as_array() {
+        return e.first().cloned().unwrap_or(Value::Null);
+    }
+    let ty = match &schema["type"] {
+        Value::String(s) => s.clone(),
+        Value::Array(a) => {
+            if a.iter().any(|x| x == "null") {
+                return Value::Null;
+            }
+            a.first().and_then(|x| x.as_str()).unwrap_or("object").to_string()
+        }
+        _ => "object".to_string(),
+    };
+    match ty.as_str() {
+        "object" => {
+            let mut o = serde_json::Map::new();
+            for r in schema["required"].as_array().cloned().unwrap_or_default() {
+                if let Some(k) = r.as_str() {
+                    o.insert(k.to_string(), minimal(&schema["properties"][k], defs, int, text, depth + 1));
+                }
+            }
+            Value::Object(o)
+        }
+        "array" => json!([]),
+        "string" => json!(text),
+        "integer" | "number" => json!(int),
+        "boolean" => json!(false),
+        _ => Value::Null,
+    }
+}
+
 // ------------------------------------------------------------------------------------------------ the system under test
 
+/// what the contract has STORED (typed `state::` read) — or, second best, what its stage / member queries say
 #[derive(Clone, Debug, Default, PartialEq)]
 struct Snap {
     stages: Vec<St>,
     num: u64,
-    /// Members(k) for k in 0..4 (list-based only)
-    members: Vec<Vec<(u64, u64)>>,
+    /// (stage id, address) -> value (`true` = 1 on plain, `mint_count` on flex); list-based only
+    members: BTreeMap<(u64, u64), u64>,
     roots: Vec<String>,
+    typed: bool,
+}
+impl Snap {
+    fn of_stage(&self, k: u64) -> Vec<(u64, u64)> {
+        self.members.range((k, 0)..(k + 1, 0)).map(|((_, a), c)| (*a, *c)).collect()
+    }
+    fn count_from(&self, k: u64) -> u64 {
+        self.members.range((k, 0)..).count() as u64
+    }
+}
+
+/// what the harness itself configured: built ONLY from the lines it sent and the accept/reject it got back
+#[derive(Clone, Debug, Default)]
+struct Ghost {
+    stages: Vec<St>,
+    /// per stage: address -> count given when it was first added
+    members: Vec<BTreeMap<u64, u64>>,
 }
 
 struct S {
@@ -233,8 +379,16 @@ struct S {
     /// successful message lines of the current case (to rebuild the world after a panic)
     log: Vec<String>,
     pre: Option<Snap>,
+    ghost: Ghost,
     pending: Option<(String, String)>,
+    surface: [Surface; 3],
+    /// classes / notes for the session (drained by `step`)
+    marks: Vec<String>,
+    notes: BTreeSet<String>,
+    page_flip: bool,
 }
+
+const MIGRATOR: u64 = 6;
 
 fn fresh_app() -> (App, [u64; 3]) {
     let mut app = boxes::custom_mock_app();
@@ -244,10 +398,31 @@ fn fresh_app() -> (App, [u64; 3]) {
     (app, [c0, c1, c2])
 }
 
+fn canon_stages_line(now: u64, n: usize) -> String {
+    (0..n as u64).map(|k| format!("{k}:{}:{}:0:0:1:-", now + 10 + 20 * k, now + 20 + 20 * k)).collect::<Vec<_>>().join(";")
+}
+
+fn replace_kv(line: &str, key: &str, val: &str) -> String {
+    line.split_whitespace().map(|w| if w.starts_with(&format!("{key}=")) { format!("{key}={val}") } else { w.to_string() }).collect::<Vec<_>>().join(" ")
+}
+
 impl S {
     fn new() -> S {
         let (app, code) = fresh_app();
-        S { app, code, v: V::Plain, wl: None, log: vec![], pre: None, pending: None }
+        S {
+            app,
+            code,
+            v: V::Plain,
+            wl: None,
+            log: vec![],
+            pre: None,
+            ghost: Ghost::default(),
+            pending: None,
+            surface: [surface_of(V::Plain), surface_of(V::Flex), surface_of(V::Merkle)],
+            marks: vec![],
+            notes: BTreeSet::new(),
+            page_flip: false,
+        }
     }
     fn reset(&mut self) {
         let (app, code) = fresh_app();
@@ -256,6 +431,7 @@ impl S {
         self.wl = None;
         self.log.clear();
         self.pre = None;
+        self.ghost = Ghost::default();
         self.pending = None;
     }
     fn set_time(&mut self, now: u64) {
@@ -278,50 +454,131 @@ impl S {
             _ => None,
         }
     }
-    fn members_of(&self, k: u64) -> Option<Vec<(u64, u64)>> {
-        let r = self.q(json!({"members": {"start_after": null, "limit": 100, "stage_id": k}}))?;
-        let arr = r["members"].as_array()?.clone();
-        Some(
-            arr.iter()
-                .map(|m| match m {
-                    Value::String(s) => (name_id(s), 1),
-                    o => (name_id(o["address"].as_str().unwrap_or("")), o["mint_count"].as_u64().unwrap_or(0)),
-                })
-                .collect(),
-        )
-    }
-    /// raw `config` item + member maps: what the monitors look at (independent of the stage queries)
-    fn snap(&self) -> Option<Snap> {
-        let wl = self.wl.clone()?;
-        let raw = self.app.wrap().query_wasm_raw(wl.clone(), b"config".to_vec()).ok()??;
-        let cfg: Value = serde_json::from_slice(&raw).ok()?;
-        let stages = cfg["stages"].as_array().map(|a| a.iter().map(St::from_json).collect()).unwrap_or_default();
-        let num = cfg["num_members"].as_u64().unwrap_or(0);
-        let mut members = vec![];
-        let mut roots = vec![];
-        if self.v != V::Merkle {
-            for k in 0..4 {
-                members.push(self.members_of(k).unwrap_or_default());
-            }
-        } else if let Ok(Some(r)) = self.app.wrap().query_wasm_raw(wl, b"merkle_roots".to_vec()) {
-            let rv: Value = serde_json::from_slice(&r).unwrap_or(Value::Null);
-            roots = rv.as_array().map(|a| a.iter().filter_map(|x| x.as_str().map(String::from)).collect()).unwrap_or_default();
-        }
-        Some(Snap { stages, num, members, roots })
+    fn unknown_variants(&self, v: V) -> Vec<String> {
+        let known: Vec<&str> = known_variants(v).iter().map(|(n, _)| *n).collect();
+        self.surface[v as usize].variants.iter().map(|(n, _)| n.clone()).filter(|n| !known.contains(&n.as_str())).collect()
     }
 
-    fn stage_q(&self, id: u64) -> String {
-        match self.q(json!({"stage": {"stage_id": id}})) {
-            Some(r) => {
-                let st = St::from_json(&r["stage"]);
-                let c = if self.v == V::Merkle {
-                    root_to_nat(r["merkle_root"].as_str().unwrap_or("")).map(|x| x.to_string()).unwrap_or("?".into())
-                } else {
-                    r["member_count"].as_u64().unwrap_or(0).to_string()
-                };
-                format!("{}@{}", st.line(), c)
+    /// `Members{stage_id}` paged to exhaustion (alternating the default page size and `limit: 100`, until an empty page)
+    fn members_paged(&mut self, k: u64) -> Option<Vec<(u64, u64)>> {
+        self.page_flip = !self.page_flip;
+        let limit: Option<u32> = if self.page_flip { None } else { Some(100) };
+        let mut out: Vec<(u64, u64)> = vec![];
+        let mut after: Option<String> = None;
+        for _ in 0..4000 {
+            let r = self.q(json!({"members": {"start_after": after, "limit": limit, "stage_id": k}}))?;
+            let arr = r["members"].as_array()?.clone();
+            if arr.is_empty() {
+                return Some(out);
             }
-            None => "e".into(),
+            for m in &arr {
+                let (s, c) = match m {
+                    Value::String(s) => (s.clone(), 1),
+                    o => (o["address"].as_str().unwrap_or("").to_string(), o["mint_count"].as_u64().unwrap_or(0)),
+                };
+                out.push((name_id(&s), c));
+                after = Some(s);
+            }
+        }
+        None
+    }
+
+    /// the contract's storage through the crate's own typed constants
+    fn typed_snap(&self) -> Option<Snap> {
+        let wl = self.wl.clone()?;
+        let v = self.v;
+        let app = &self.app;
+        catch(|| -> Option<Snap> {
+            let st = app.contract_storage(&wl);
+            let mut members = BTreeMap::new();
+            let mut roots = vec![];
+            let cfg: Value = match v {
+                V::Plain => {
+                    use sg_tiered_whitelist::state::{CONFIG, WHITELIST_STAGES};
+                    for r in WHITELIST_STAGES.range(&*st, None, None, Order::Ascending) {
+                        let ((k, a), _) = r.ok()?;
+                        members.insert((k as u64, name_id(a.as_ref())), 1u64);
+                    }
+                    serde_json::to_value(CONFIG.may_load(&*st).ok()??).ok()?
+                }
+                V::Flex => {
+                    use sg_tiered_whitelist_flex::state::{CONFIG, WHITELIST_STAGES};
+                    for r in WHITELIST_STAGES.range(&*st, None, None, Order::Ascending) {
+                        let ((k, a), c) = r.ok()?;
+                        members.insert((k as u64, name_id(a.as_ref())), c as u64);
+                    }
+                    serde_json::to_value(CONFIG.may_load(&*st).ok()??).ok()?
+                }
+                V::Merkle => {
+                    use tiered_whitelist_merkletree::state::{CONFIG, MERKLE_ROOTS};
+                    roots = MERKLE_ROOTS.may_load(&*st).ok()?.unwrap_or_default();
+                    serde_json::to_value(CONFIG.may_load(&*st).ok()??).ok()?
+                }
+            };
+            let stages: Option<Vec<St>> = cfg["stages"].as_array()?.iter().map(St::from_json).collect();
+            Some(Snap { stages: stages?, num: cfg["num_members"].as_u64().unwrap_or(0), members, roots, typed: true })
+        })
+        .ok()
+        .flatten()
+    }
+
+    /// second best: the stage / member / root QUERIES (used only when the typed read is impossible; the run says so)
+    fn query_snap(&mut self) -> Option<Snap> {
+        self.wl.as_ref()?;
+        // one consistent answer (`Stages`); it fails when the list is empty — told apart by what the harness itself configured
+        let stages: Vec<St> = match self.q(json!({"stages": {}})) {
+            Some(r) => r["stages"].as_array()?.iter().map(|x| St::from_json(&x["stage"])).collect::<Option<Vec<St>>>()?,
+            None if self.ghost.stages.is_empty() => vec![],
+            None => return None,
+        };
+        let cfg = self.q(json!({"config": {}}))?;
+        let mut members = BTreeMap::new();
+        let mut roots = vec![];
+        if self.v != V::Merkle {
+            for k in 0..4u64 {
+                for (a, c) in self.members_paged(k).unwrap_or_default() {
+                    members.insert((k, a), c);
+                }
+            }
+        } else if let Some(r) = self.q(json!({"merkle_roots": {}})) {
+            roots = r["merkle_roots"].as_array().map(|a| a.iter().filter_map(|x| x.as_str().map(String::from)).collect()).unwrap_or_default();
+        }
+        Some(Snap { stages, num: cfg["num_members"].as_u64().unwrap_or(0), members, roots, typed: false })
+    }
+
+    fn snap(&mut self) -> Option<Snap> {
+        self.wl.as_ref()?;
+        // (self-test hook: C13_FORCE_QUERY_SNAP=1 exercises the fallback path)
+        let typed = if std::env::var("C13_FORCE_QUERY_SNAP").is_ok() { None } else { self.typed_snap() };
+        if let Some(s) = typed {
+            self.marks.push("snap-ok:typed".into());
+            return Some(s);
+        }
+        let s = self.query_snap();
+        if s.is_some() {
+            self.marks.push("snap-ok:query".into());
+            self.notes.insert("storage could not be read through the crates' typed state constants: monitors use the stage/member QUERIES as truth (weaker)".into());
+        } else {
+            self.marks.push("snap:none".into());
+            self.notes.insert("neither the typed storage nor the stage queries could be read for an instantiated contract: stage monitors had no truth for some steps".into());
+        }
+        s
+    }
+
+    /// `Stage{k}`: (primary, drift)
+    fn stage_q(&self, id: u64) -> (String, String) {
+        match self.q(json!({"stage": {"stage_id": id}})) {
+            Some(r) => match St::from_json(&r["stage"]) {
+                Some(st) => {
+                    if self.v == V::Merkle {
+                        (format!("{}@{}", st.p(), root_to_nat(r["merkle_root"].as_str().unwrap_or("")).map(|x| x.to_string()).unwrap_or("?".into())), st.x())
+                    } else {
+                        (st.p(), format!("{}@{}", st.x(), r["member_count"].as_u64().unwrap_or(0)))
+                    }
+                }
+                None => ("?".into(), "?".into()),
+            },
+            None => ("e".into(), "e".into()),
         }
     }
     fn admin_str(&self) -> String {
@@ -333,15 +590,19 @@ impl S {
             None => "e".into(),
         }
     }
-    fn summary(&self) -> String {
-        let st: Vec<String> = (0..4).map(|i| self.stage_q(i)).collect();
+    /// (primary, drift)
+    fn summary(&self) -> (String, String) {
+        let qs: Vec<(String, String)> = (0..4).map(|i| self.stage_q(i)).collect();
         let cfg = self.q(json!({"config": {}})).unwrap_or(Value::Null);
-        format!(
-            "ok st={} n={} lim={} adm={}",
-            st.join(";"),
-            cfg["num_members"].as_u64().unwrap_or(0),
-            cfg["member_limit"].as_u64().unwrap_or(0),
-            self.admin_str()
+        (
+            format!("st={} n={}", qs.iter().map(|x| x.0.clone()).collect::<Vec<_>>().join(";"), cfg["num_members"].as_u64().unwrap_or(0)),
+            format!(
+                "sx={} lim={} whale={} adm={}",
+                qs.iter().map(|x| x.1.clone()).collect::<Vec<_>>().join(";"),
+                cfg["member_limit"].as_u64().unwrap_or(0),
+                fmt_opt(&cfg["whale_cap"].as_u64()),
+                self.admin_str()
+            ),
         )
     }
 
@@ -388,7 +649,8 @@ impl S {
             };
             let code = self.code[v as usize];
             let app = &mut self.app;
-            let r = catch(|| app.instantiate_contract(code, sender.clone(), &msg, &funds, "tiered-wl", None))?;
+            // the chain-level admin (who may migrate) is a fixed account: it is not part of the whitelist's own admin list
+            let r = catch(|| app.instantiate_contract(code, sender.clone(), &msg, &funds, "tiered-wl", Some(name(MIGRATOR))))?;
             return Ok(match r {
                 Ok(a) => {
                     self.wl = Some(a);
@@ -398,6 +660,12 @@ impl S {
             });
         }
         let Some(wl) = self.wl.clone() else { return Ok(false) };
+        if op == "migrate" {
+            let code = self.code[v as usize];
+            let app = &mut self.app;
+            let r = catch(|| app.migrate_contract(sender.clone(), wl, &json!({}), code))?;
+            return Ok(r.is_ok());
+        }
         let mut funds: Vec<Coin> = vec![];
         let id = kv_u64(line, "id").unwrap_or(0);
         let msg = match op {
@@ -437,6 +705,18 @@ impl S {
                 json!({"update_admins": {"admins": l}})
             }
             "freeze" => json!({"freeze": {}}),
+            "unk" => {
+                // a message outside the known surface: raw JSON, minimal arguments derived from the crate's own schema
+                let vname = kv(line, "name").unwrap_or("c13_no_such_message").to_string();
+                let arg = kv_u64(line, "arg").unwrap_or(0);
+                let text = if arg >= 4 { name(ADMIN) } else { "0".to_string() };
+                let sf = &self.surface[v as usize];
+                match sf.variants.iter().find(|(n, _)| *n == vname) {
+                    Some((_, Value::Null)) => json!(vname),
+                    Some((_, sch)) => json!({ vname: minimal(sch, &sf.defs, arg % 4, &text, 0) }),
+                    None => json!({ vname: {} }),
+                }
+            }
             _ => return Err("bad-op".into()),
         };
         self.fund(&sender, &funds);
@@ -462,6 +742,46 @@ impl S {
         }
     }
 
+    /// would this instantiate pass every check that is NOT about the schedule? (same message, canonical valid schedule)
+    fn probe_inst_env(&mut self, line: &str) -> bool {
+        let now = kv_u64(line, "now").unwrap_or(T0);
+        let n = parse_stages(kv(line, "stages").unwrap_or("-")).len();
+        let line2 = replace_kv(line, "stages", &canon_stages_line(now, n));
+        let saved = self.wl.clone();
+        let r = match self.apply(&line2) {
+            Ok(b) => b,
+            Err(_) => {
+                self.rebuild();
+                false
+            }
+        };
+        self.wl = saved;
+        r
+    }
+
+    /// was a failed add_stage rejected because of its MEMBER LIST? (the same stage with no members is accepted; undone at once)
+    fn probe_add_stage_members(&mut self, line: &str) -> bool {
+        if kv(line, "members").unwrap_or("-") == "-" {
+            return false;
+        }
+        let line2 = replace_kv(line, "members", "-");
+        match self.apply(&line2) {
+            Ok(true) => {
+                let n = self.snap().map(|s| s.stages.len()).unwrap_or(0);
+                let undo = format!("remove_stage now={} sender={} id={}", kv_u64(line, "now").unwrap_or(T0), kv_u64(line, "sender").unwrap_or(ADMIN), n.saturating_sub(1));
+                if !matches!(self.apply(&undo), Ok(true)) {
+                    self.rebuild();
+                }
+                true
+            }
+            Ok(false) => false,
+            Err(_) => {
+                self.rebuild();
+                false
+            }
+        }
+    }
+
     /// clause 1: never more than three stages, start < end, a stage never starts before the previous one ends
     fn check_chain(&mut self, op: &str, post: &Snap) {
         let s = &post.stages;
@@ -480,10 +800,103 @@ impl S {
         }
     }
 
-    fn exec_msg(&mut self, line: &str) -> String {
+    /// the ghost: what the accepted line configured (nothing else)
+    fn ghost_apply(&mut self, op: &str, line: &str) {
+        let v = self.v;
+        let norm = |mut st: St| {
+            if v == V::Flex {
+                st.pal = 0;
+            }
+            st
+        };
+        let add = |m: &mut BTreeMap<u64, u64>, l: &[(u128, u128)]| {
+            for (a, c) in l {
+                m.entry(*a as u64).or_insert(if v == V::Flex { *c as u64 } else { 1 });
+            }
+        };
+        let id = kv_u64(line, "id").unwrap_or(0) as usize;
+        match op {
+            "inst" => {
+                let stages: Vec<St> = parse_stages(kv(line, "stages").unwrap_or("-")).into_iter().map(norm).collect();
+                let lists = parse_member_lists(kv(line, "members").unwrap_or("none"));
+                let mut members = vec![BTreeMap::new(); stages.len()];
+                if v != V::Merkle {
+                    for (k, l) in lists.iter().enumerate().take(stages.len()) {
+                        add(&mut members[k], l);
+                    }
+                }
+                self.ghost = Ghost { stages, members };
+            }
+            "add_stage" => {
+                if let Some(st) = St::parse(kv(line, "stage").unwrap_or("")) {
+                    self.ghost.stages.push(norm(st));
+                    let mut m = BTreeMap::new();
+                    add(&mut m, &kv_pairs(line, "members").unwrap_or_default());
+                    self.ghost.members.push(m);
+                }
+            }
+            "remove_stage" => {
+                self.ghost.stages.truncate(id);
+                self.ghost.members.truncate(id);
+            }
+            "update_stage" => {
+                if let Some(st) = self.ghost.stages.get_mut(id) {
+                    if let Some(Some(x)) = kv_opt_u64(line, "name") {
+                        st.name = x;
+                    }
+                    if let Some(Some(x)) = kv_opt_u64(line, "start") {
+                        st.start = x;
+                    }
+                    if let Some(Some(x)) = kv_opt_u64(line, "stop") {
+                        st.stop = x;
+                    }
+                    if let Some(p) = kv(line, "price").filter(|p| *p != "-") {
+                        if let Some((d, a)) = parse_pairs(p).first() {
+                            st.denom = *d as u64;
+                            st.price = *a;
+                        }
+                    }
+                    if v != V::Flex {
+                        if let Some(Some(x)) = kv_opt_u64(line, "pal") {
+                            st.pal = x;
+                        }
+                    }
+                    if let Some(m) = kv(line, "mcl").filter(|m| *m != "-" && *m != "none") {
+                        st.mcl = m.parse().ok();
+                    }
+                }
+            }
+            "add_members" => {
+                if let Some(m) = self.ghost.members.get_mut(id) {
+                    add(m, &kv_pairs(line, "members").unwrap_or_default());
+                }
+            }
+            "remove_members" => {
+                if let Some(m) = self.ghost.members.get_mut(id) {
+                    for a in kv_list(line, "addrs").unwrap_or_default() {
+                        m.remove(&(a as u64));
+                    }
+                }
+            }
+            _ => {}
+        }
+    }
+    fn ghost_resync(&mut self, post: &Snap) {
+        let mut members = vec![BTreeMap::new(); post.stages.len()];
+        for ((k, a), c) in &post.members {
+            if let Some(m) = members.get_mut(*k as usize) {
+                m.insert(*a, *c);
+            }
+        }
+        self.ghost = Ghost { stages: post.stages.clone(), members };
+    }
+
+    fn exec_msg(&mut self, line: &str) -> (String, String) {
         let op = line.split_whitespace().next().unwrap_or("").to_string();
         let now = kv_u64(line, "now").unwrap_or(T0);
-        let pre = self.pre.clone();
+        let v = self.v;
+        let had_contract = self.wl.is_some();
+        let pre = if op == "inst" { None } else { self.pre.clone() };
         let ok = match self.apply(line) {
             Ok(b) => b,
             Err(_) => {
@@ -494,10 +907,53 @@ impl S {
         if ok {
             self.log.push(line.to_string());
         }
+        // ---- witnesses: what the implementation decided in areas C13 does not own
+        let mut model_line = line.to_string();
+        let mut extra = String::new();
+        match op.as_str() {
+            "inst" => {
+                let n = parse_stages(kv(line, "stages").unwrap_or("-")).len();
+                if ok {
+                    extra = " env=1".into();
+                } else if (1..=3).contains(&n) {
+                    let env = self.probe_inst_env(line);
+                    if !env {
+                        model_line.push_str(" envok=0");
+                    }
+                    extra = format!(" env={}", env as u8);
+                    self.marks.push(format!("{}:inst-rejected:{}", v.name(), if env { "schedule" } else { "other-rule" }));
+                } else {
+                    extra = " env=-".into();
+                }
+            }
+            "add_stage" => {
+                if ok {
+                    extra = " menv=1".into();
+                } else if had_contract && self.probe_add_stage_members(line) {
+                    model_line.push_str(" menv=0");
+                    extra = " menv=0".into();
+                    self.marks.push(format!("{}:add_stage-rejected:member-list", v.name()));
+                } else {
+                    extra = " menv=-".into();
+                }
+            }
+            "add_members" | "remove_members" | "increase_limit" | "update_admins" | "freeze" => {
+                model_line.push_str(&format!(" res={}", ok as u8));
+                extra = format!(" res={}", ok as u8);
+            }
+            "migrate" | "unk" => extra = format!(" res={}", ok as u8),
+            _ => {}
+        }
+
+        let known_op = !matches!(op.as_str(), "migrate" | "unk");
+        if ok && known_op {
+            self.ghost_apply(&op, line);
+        }
         let post = self.snap();
         if let Some(post) = &post {
             self.check_chain(&op, post);
-            if ok && (op == "inst" || op == "add_stage") {
+            let grew = pre.as_ref().map(|p| post.stages.len() > p.stages.len()).unwrap_or(false);
+            if (ok && (op == "inst" || op == "add_stage")) || grew {
                 // "created with one to three stages … the first stage starts in the future whenever stages are created or added"
                 if post.stages.is_empty() || post.stages.len() > 3 {
                     self.viol(&op, "stage-count-not-1-to-3", format!("{} stages after `{line}`", post.stages.len()));
@@ -505,43 +961,90 @@ impl S {
                     self.viol(&op, "first-stage-not-in-future", format!("first stage starts {} at now {now}", post.stages[0].start));
                 }
             }
-            if ok && op == "remove_stage" {
-                // "A stage can be removed only before it starts, and removing it removes every later stage together with all their members."
-                let id = kv_u64(line, "id").unwrap_or(0) as usize;
-                match &pre {
-                    Some(pre) if id < pre.stages.len() => {
-                        if !(now < pre.stages[id].start) {
-                            self.viol(&op, "removed-after-start", format!("stage {id} (start {}) removed at now {now}", pre.stages[id].start));
-                        }
-                        if post.stages[..] != pre.stages[..id] {
-                            self.viol(&op, "later-stages-not-removed", format!("stages after removal of {id}: {} (before: {})", stages_line(&post.stages), stages_line(&pre.stages)));
-                        }
-                        let mut gone = 0u64;
-                        for k in id..4 {
-                            gone += pre.members.get(k).map(|m| m.len() as u64).unwrap_or(0);
-                            if post.members.get(k).map(|m| !m.is_empty()).unwrap_or(false) {
-                                self.viol(&op, "members-of-removed-stage-remain", format!("stage {k} still lists {:?}", post.members[k]));
-                            }
-                        }
-                        for k in 0..id.min(4) {
-                            if post.members.get(k) != pre.members.get(k) {
-                                self.viol(&op, "members-of-kept-stage-changed", format!("stage {k}"));
-                            }
-                        }
-                        if post.num + gone != pre.num {
-                            self.viol(&op, "num-members-not-reduced-exactly", format!("num_members {} -> {}, {gone} members removed", pre.num, post.num));
+            // every stored member entry belongs to an existing stage (nothing of a removed stage is left behind)
+            if let Some(((k, a), _)) = post.members.range((post.stages.len() as u64, 0)..).next() {
+                self.viol(&op, "members-of-nonexistent-stage", format!("entry (stage {k}, address {a}) stored while only {} stages exist ({} such entries)", post.stages.len(), post.count_from(post.stages.len() as u64)));
+            }
+            if let Some(pre) = &pre {
+                // "A stage can be removed only before it starts, and removing it removes every later stage together with all their
+                // members." — judged on what ANY message (known, unknown, migrate) did to the stored stage list
+                let (n0, n1) = (pre.stages.len(), post.stages.len());
+                if n1 < n0 {
+                    for j in n1..n0 {
+                        if !(now < pre.stages[j].start) {
+                            self.viol(&op, "removed-after-start", format!("stage {j} (start {}) disappeared at now {now} by `{}`", pre.stages[j].start, line.chars().take(120).collect::<String>()));
                         }
                     }
-                    _ => self.viol(&op, "removed-nonexistent-stage", format!("`{line}` accepted")),
+                    if post.stages[..] != pre.stages[..n1] {
+                        self.viol(&op, "kept-stages-changed-by-removal", format!("stages {} -> {}", stages_line(&pre.stages), stages_line(&post.stages)));
+                    }
+                    let gone = pre.count_from(n1 as u64);
+                    if post.count_from(n1 as u64) > 0 {
+                        self.viol(&op, "members-of-removed-stage-remain", format!("{} of {gone} entries of the removed stages are still stored", post.count_from(n1 as u64)));
+                    }
+                    for k in 0..n1 as u64 {
+                        if post.of_stage(k) != pre.of_stage(k) {
+                            self.viol(&op, "members-of-kept-stage-changed", format!("stage {k}"));
+                        }
+                    }
+                    if v != V::Merkle && post.num + gone != pre.num {
+                        self.viol(&op, "num-members-not-reduced-exactly", format!("num_members {} -> {}, {gone} entries removed", pre.num, post.num));
+                    }
+                    if op == "remove_stage" {
+                        let id = kv_u64(line, "id").unwrap_or(0) as usize;
+                        if n1 != id {
+                            self.viol(&op, "later-stages-not-removed", format!("remove_stage {id} left {n1} of {n0} stages: {}", stages_line(&post.stages)));
+                        }
+                        let biggest = (n1..n0).map(|k| pre.of_stage(k as u64).len()).max().unwrap_or(0);
+                        self.marks.push(format!("{}:remove-ok:largest-stage:{}", v.name(), if biggest > 100 { ">100" } else if biggest > 25 { ">25" } else { "<=25" }));
+                    }
+                } else if ok && op == "remove_stage" {
+                    self.viol(&op, "removed-nonexistent-stage", format!("`{line}` accepted, stage list unchanged"));
                 }
+            }
+            if known_op {
+                // what is stored = what was sent (stage windows / price / limit; member ADDRESS sets per stage)
+                let gs = &self.ghost.stages;
+                if gs.len() != post.stages.len() || gs.iter().zip(post.stages.iter()).any(|(a, b)| !a.same_p(b)) {
+                    let w = format!("sent {} stored {}", stages_line(gs), stages_line(&post.stages));
+                    self.viol(&op, "stored-stages-ne-sent", w);
+                } else if v != V::Merkle {
+                    for k in 0..post.stages.len().max(self.ghost.members.len()) {
+                        let sent: Vec<u64> = self.ghost.members.get(k).map(|m| m.keys().copied().collect()).unwrap_or_default();
+                        let stored: Vec<u64> = post.of_stage(k as u64).iter().map(|(a, _)| *a).collect();
+                        if sent != stored {
+                            let w = format!("stage {k}: {} addresses sent, {} stored; first difference {:?}", sent.len(), stored.len(), sent.iter().zip(stored.iter()).find(|(a, b)| a != b));
+                            self.viol(&op, "stored-members-ne-sent", w);
+                            break;
+                        }
+                    }
+                }
+            } else if ok {
+                self.ghost_resync(post);
             }
         }
         self.pre = post;
-        if ok {
-            self.summary()
-        } else {
-            "err".into()
-        }
+        let out = match op.as_str() {
+            "migrate" | "unk" => {
+                if self.wl.is_some() {
+                    let (p, d) = self.summary();
+                    format!("fr {p} ## {d}{extra}")
+                } else {
+                    "err".into()
+                }
+            }
+            _ => {
+                if ok {
+                    let (p, d) = self.summary();
+                    format!("ok {p} ## {d}{extra}")
+                } else if extra.is_empty() {
+                    "err".into()
+                } else {
+                    format!("err ##{extra}")
+                }
+            }
+        };
+        (model_line, out)
     }
 
     fn exec_query(&mut self, line: &str) -> (String, String) {
@@ -555,6 +1058,8 @@ impl S {
         let probes: Vec<u64> = kv_list(line, "probes").unwrap_or_default().iter().map(|x| *x as u64).collect();
         let b01 = |b: bool| if b { "1" } else { "0" };
         let join = |l: Vec<String>, sep: &str| if l.is_empty() { "-".to_string() } else { l.join(sep) };
+        let snap = self.snap();
+        let nst = snap.as_ref().map(|s| s.stages.len()).unwrap_or(0) as u64;
 
         let act = self.q(json!({"active_stage_id": {}})).and_then(|x| x.as_u64());
         let is = self.q(json!({"is_active": {}})).and_then(|x| x["is_active"].as_bool());
@@ -563,7 +1068,20 @@ impl S {
         let cfg = self.q(json!({"config": {}}));
         let asg = self.q(json!({"active_stage": {}}));
         let ob = |o: Option<bool>| o.map(|b| b01(b).to_string()).unwrap_or("e".into());
-        let cfg_s = match &cfg {
+        let cfg_active = cfg.as_ref().and_then(|c| c["is_active"].as_bool());
+        let cfg_p = match &cfg {
+            Some(c) if cfg_active == Some(true) => format!(
+                "1:{}:{}:{}:{}:{}",
+                c["start_time"].as_str().unwrap_or("?"),
+                c["end_time"].as_str().unwrap_or("?"),
+                denom_id(c["mint_price"]["denom"].as_str().unwrap_or("")),
+                c["mint_price"]["amount"].as_str().unwrap_or("?"),
+                c["per_address_limit"].as_u64().unwrap_or(0)
+            ),
+            Some(_) => "0".into(),
+            None => "e".into(),
+        };
+        let cfg_x = match &cfg {
             Some(c) => format!(
                 "{}:{}:{}:{}:{}:{}:{}:{}:{}",
                 c["num_members"].as_u64().unwrap_or(0),
@@ -578,26 +1096,39 @@ impl S {
             ),
             None => "e".into(),
         };
-        let as_s = match &asg {
-            Some(Value::Null) => "-".to_string(),
-            Some(j) => St::from_json(j).line(),
-            None => "e".into(),
+        let as_st: Option<Option<St>> = match &asg {
+            Some(Value::Null) => Some(None),
+            Some(j) => St::from_json(j).map(Some),
+            None => None,
         };
-        let sl = match self.q(json!({"stages": {}})) {
-            Some(r) => join(
-                r["stages"].as_array().cloned().unwrap_or_default().iter().map(|x| {
-                    let c = if lb { x["member_count"].as_u64().unwrap_or(0).to_string() } else { root_to_nat(x["merkle_root"].as_str().unwrap_or("")).map(|n| n.to_string()).unwrap_or("?".into()) };
-                    format!("{}@{}", St::from_json(&x["stage"]).line(), c)
-                }).collect(),
-                ";",
-            ),
-            None => "e".into(),
+        let (as_p, as_x) = match &as_st {
+            Some(None) => ("-".to_string(), "-".to_string()),
+            Some(Some(st)) => (st.p(), st.x()),
+            None => ("e".into(), "e".into()),
         };
-        let st: Vec<String> = (0..4).map(|i| self.stage_q(i)).collect();
+        let (sl_p, sl_x) = match self.q(json!({"stages": {}})) {
+            Some(r) => {
+                let l: Vec<(String, String)> = r["stages"].as_array().cloned().unwrap_or_default().iter().map(|x| match St::from_json(&x["stage"]) {
+                    Some(st) => {
+                        if lb {
+                            (st.p(), format!("{}@{}", st.x(), x["member_count"].as_u64().unwrap_or(0)))
+                        } else {
+                            (format!("{}@{}", st.p(), root_to_nat(x["merkle_root"].as_str().unwrap_or("")).map(|n| n.to_string()).unwrap_or("?".into())), st.x())
+                        }
+                    }
+                    None => ("?".into(), "?".into()),
+                }).collect();
+                (join(l.iter().map(|x| x.0.clone()).collect(), ";"), join(l.iter().map(|x| x.1.clone()).collect(), ";"))
+            }
+            None => ("e".into(), "e".into()),
+        };
+        let qs: Vec<(String, String)> = (0..4).map(|i| self.stage_q(i)).collect();
 
         let mut hm_v: Vec<Option<bool>> = vec![];
         let mut mb_v: Vec<Option<u64>> = vec![];
-        let (mut hm, mut mb, mut smi, mut asmi, mut ms) = ("x".to_string(), "x".to_string(), "x".to_string(), "x".to_string(), "x".to_string());
+        let x = || "x".to_string();
+        let (mut hm, mut mb, mut smi, mut smip, mut smio, mut asmi, mut asmip, mut ms) = (x(), x(), x(), x(), x(), x(), x(), x());
+        let mut paged: Vec<Option<Vec<(u64, u64)>>> = vec![];
         if lb {
             for a in &probes {
                 hm_v.push(self.q(json!({"has_member": {"member": name(*a)}})).and_then(|r| r["has_member"].as_bool()));
@@ -609,26 +1140,32 @@ impl S {
                 }
                 mb = join(mb_v.iter().map(|o| o.map(|n| n.to_string()).unwrap_or("e".into())).collect(), ",");
             }
-            let smi_of = |r: &Value| format!("{}:{}", b01(r["is_member"].as_bool().unwrap_or(false)), r["per_address_limit"].as_u64().unwrap_or(0));
-            smi = join(
-                probes.iter().map(|a| {
-                    (0..4).map(|id| self.q(json!({"stage_member_info": {"stage_id": id, "member": name(*a)}})).map(|r| smi_of(&r)).unwrap_or("e".into())).collect::<Vec<_>>().join("+")
-                }).collect(),
-                ",",
-            );
-            asmi = join(
-                probes.iter().map(|a| match self.q(json!({"all_stage_member_info": {"member": name(*a)}})) {
-                    Some(r) => join(r["all_stage_member_info"].as_array().cloned().unwrap_or_default().iter().map(|x| smi_of(x)).collect(), "+"),
-                    None => "e".into(),
-                }).collect(),
-                ",",
-            );
-            ms = (0..4).map(|k| self.members_of(k).map(|l| fmt_pairs(&l)).unwrap_or("e".into())).collect::<Vec<_>>().join("/");
-        } else {
-            // the list-based queries do not exist on the Merkle contract; make sure they stay rejected
-            if self.q(json!({"members": {"start_after": null, "limit": 1, "stage_id": 0}})).is_some() {
-                self.viol("q", "merkle-has-member-list", "Members query answered by the Merkle contract".into());
+            // StageMemberInfo: `is_member` for the existing stages is primary; the limit half and ids beyond the list are drift
+            let smi_all: Vec<Vec<Option<(bool, u64)>>> = probes.iter().map(|a| {
+                (0..4u64).map(|id| self.q(json!({"stage_member_info": {"stage_id": id, "member": name(*a)}})).map(|r| (r["is_member"].as_bool().unwrap_or(false), r["per_address_limit"].as_u64().unwrap_or(0)))).collect()
+            }).collect();
+            let fb = |o: &Option<(bool, u64)>| o.map(|(b, _)| b01(b).to_string()).unwrap_or("e".into());
+            let fp = |o: &Option<(bool, u64)>| o.map(|(_, p)| p.to_string()).unwrap_or("e".into());
+            let n = (nst as usize).min(4);
+            smi = join(smi_all.iter().map(|r| join(r[..n].iter().map(fb).collect(), "+")).collect(), ",");
+            smip = join(smi_all.iter().map(|r| join(r[..n].iter().map(fp).collect(), "+")).collect(), ",");
+            smio = join(smi_all.iter().map(|r| join(r[n..].iter().map(|o| format!("{}:{}", fb(o), fp(o))).collect(), "+")).collect(), ",");
+            let asmi_all: Vec<Option<Vec<(bool, u64)>>> = probes.iter().map(|a| {
+                self.q(json!({"all_stage_member_info": {"member": name(*a)}})).map(|r| r["all_stage_member_info"].as_array().cloned().unwrap_or_default().iter().map(|x| (x["is_member"].as_bool().unwrap_or(false), x["per_address_limit"].as_u64().unwrap_or(0))).collect())
+            }).collect();
+            asmi = join(asmi_all.iter().map(|o| o.as_ref().map(|l| join(l.iter().map(|(b, _)| b01(*b).to_string()).collect(), "+")).unwrap_or("e".into())).collect(), ",");
+            asmip = join(asmi_all.iter().map(|o| o.as_ref().map(|l| join(l.iter().map(|(_, p)| p.to_string()).collect(), "+")).unwrap_or("e".into())).collect(), ",");
+            for k in 0..4 {
+                paged.push(self.members_paged(k));
             }
+            // the compared member map is the STORED one (the Members query is judged against it by a monitor)
+            ms = match &snap {
+                Some(s) if s.typed => (0..4).map(|k| fmt_pairs(&s.of_stage(k))).collect::<Vec<_>>().join("/"),
+                _ => paged.iter().map(|l| l.as_ref().map(|l| fmt_pairs(l)).unwrap_or("e".into())).collect::<Vec<_>>().join("/"),
+            };
+        } else if self.q(json!({"members": {"start_after": null, "limit": 1, "stage_id": 0}})).is_some() {
+            self.marks.push("merkle:members-query-answered".into());
+            self.notes.insert("the Merkle contract answers a `Members` query (it has no member list in the modelled code)".into());
         }
         let ce = join(
             probes.iter().map(|a| {
@@ -660,9 +1197,9 @@ impl S {
             };
         }
 
-        // ---------------------------------------------------------------- monitors (on the implementation's own answers)
-        if let Some(snap) = self.snap() {
-            self.check_chain("q", &snap);
+        // ---------------------------------------------------------------- monitors
+        if let Some(snap) = &snap {
+            self.check_chain("q", snap);
             let s = &snap.stages;
             let containing: Vec<usize> = (0..s.len()).filter(|i| s[*i].contains(now)).collect();
             // "At any instant at most one stage is reported active, namely the earliest stage whose window (both ends inclusive) contains the current time"
@@ -670,12 +1207,16 @@ impl S {
             if act != Some(want.map(|i| i as u64 + 1).unwrap_or(0)) {
                 self.viol("q", "active-stage-id-not-earliest-containing", format!("now {now}: ActiveStageId={:?}, windows containing now: {:?} in {}", act, containing, stages_line(s)));
             }
-            let as_want = want.map(|i| s[i].line()).unwrap_or("-".into());
-            if as_s != as_want {
-                self.viol("q", "active-stage-not-earliest-containing", format!("now {now}: ActiveStage={as_s}, expected {as_want}"));
+            let as_ok = match (&as_st, want) {
+                (Some(None), None) => true,
+                (Some(Some(st)), Some(i)) => st.same_p(&s[i]),
+                _ => false,
+            };
+            if !as_ok {
+                self.viol("q", "active-stage-not-earliest-containing", format!("now {now}: ActiveStage={as_p}, expected {}", want.map(|i| s[i].p()).unwrap_or("-".into())));
             }
-            if is != Some(want.is_some()) || cfg.as_ref().and_then(|c| c["is_active"].as_bool()) != Some(want.is_some()) {
-                self.viol("q", "is-active-mismatch", format!("now {now}: IsActive={:?} Config.is_active={:?}, expected {}", is, cfg.as_ref().map(|c| c["is_active"].clone()), want.is_some()));
+            if is != Some(want.is_some()) || cfg_active != Some(want.is_some()) {
+                self.viol("q", "is-active-mismatch", format!("now {now}: IsActive={:?} Config.is_active={:?}, expected {}", is, cfg_active, want.is_some()));
             }
             if containing.len() > 2 {
                 self.viol("q", "three-windows-contain-instant", format!("now {now}: {:?}", containing));
@@ -685,35 +1226,59 @@ impl S {
                 if !(s[i].stop == now && s[j].start == now && j == i + 1) {
                     self.viol("q", "two-windows-overlap-without-touching", format!("now {now}: stages {i},{j} of {}", stages_line(s)));
                 }
+                self.marks.push(format!("{}:q:two-windows-touch", v.name()));
             }
             // "membership, price and per-address limit answers come from that stage only (no active stage means no member)"
-            if let (Some(i), Some(c)) = (want, &cfg) {
-                let t = &s[i];
-                let got = (
-                    c["start_time"].as_str().unwrap_or("").to_string(),
-                    c["end_time"].as_str().unwrap_or("").to_string(),
-                    denom_id(c["mint_price"]["denom"].as_str().unwrap_or("")),
-                    c["mint_price"]["amount"].as_str().unwrap_or("").to_string(),
-                    c["per_address_limit"].as_u64().unwrap_or(0),
-                );
-                let exp = (t.start.to_string(), t.stop.to_string(), t.denom, t.price.to_string(), if v == V::Flex { 0 } else { t.pal });
-                if got != exp {
-                    self.viol("q", "config-not-from-active-stage", format!("now {now}: Config {:?}, active stage {i} = {}", got, t.line()));
+            if let Some(i) = want {
+                let exp = format!("1:{}", s[i].p());
+                if cfg_p != exp {
+                    self.viol("q", "config-not-from-active-stage", format!("now {now}: Config {cfg_p}, active stage {i} = {}", s[i].p()));
                 }
             }
             if lb {
+                let ghost_has = |k: usize, a: u64| self.ghost.members.get(k).map(|m| m.contains_key(&a)).unwrap_or(false);
+                let mut found: Option<(&'static str, String)> = None;
+                let mut marks: Vec<String> = vec![];
                 for (n, a) in probes.iter().enumerate() {
                     if *a == 0 {
+                        // a string that is not an address: never a member
+                        if hm_v[n] == Some(true) {
+                            found.get_or_insert(("has-member-invalid-address", format!("now {now}: HasMember(invalid address) = true")));
+                        }
                         continue;
                     }
-                    let exp = want.map(|i| snap.members.get(i).map(|m| m.iter().any(|(x, _)| x == a)).unwrap_or(false)).unwrap_or(false);
+                    // truth: the harness put this address into the active stage itself (ghost), nothing else counts
+                    let exp = want.map(|i| ghost_has(i, *a)).unwrap_or(false);
                     if hm_v[n] != Some(exp) {
-                        self.viol("q", "has-member-not-from-active-stage", format!("now {now}: HasMember({a})={:?}, active stage {:?}, members {:?}", hm_v[n], want, snap.members));
+                        found.get_or_insert(("has-member-not-from-active-stage", format!("now {now}: HasMember({a})={:?}, active stage {:?}; the harness added {a} to stages {:?}", hm_v[n], want, (0..self.ghost.members.len()).filter(|k| ghost_has(*k, *a)).collect::<Vec<_>>())));
+                    }
+                    if exp {
+                        marks.push(format!("{}:hm:true", v.name()));
+                    } else if (0..self.ghost.members.len()).any(|k| ghost_has(k, *a)) {
+                        marks.push(format!("{}:hm:false-though-member-of-{}", v.name(), if want.is_some() { "another-stage" } else { "a-stage-none-active" }));
                     }
                     if v == V::Flex {
-                        let expc = want.and_then(|i| snap.members.get(i).and_then(|m| m.iter().find(|(x, _)| x == a).map(|(_, c)| *c)));
+                        let expc = want.and_then(|i| snap.members.get(&(i as u64, *a)).copied()).filter(|_| exp);
                         if mb_v[n] != expc {
-                            self.viol("q", "member-not-from-active-stage", format!("now {now}: Member({a})={:?}, expected {:?}", mb_v[n], expc));
+                            found.get_or_insert(("member-not-from-active-stage", format!("now {now}: Member({a})={:?}, expected {:?}", mb_v[n], expc)));
+                        }
+                    }
+                }
+                self.marks.extend(marks);
+                if let Some((k, w)) = found {
+                    self.viol("q", k, w);
+                }
+                // the Members query (paged to exhaustion) against what is stored
+                for k in 0..4u64 {
+                    if let Some(Some(l)) = paged.get(k as usize) {
+                        let stored = snap.of_stage(k);
+                        if snap.typed && *l != stored {
+                            self.viol("q", "members-query-ne-stored", format!("stage {k}: Members lists {} entries, {} are stored", l.len(), stored.len()));
+                        }
+                        if l.len() > 100 {
+                            self.marks.push(format!("{}:q:members-paged:>100", v.name()));
+                        } else if l.len() > 25 {
+                            self.marks.push(format!("{}:q:members-paged:>25", v.name()));
                         }
                     }
                 }
@@ -723,23 +1288,31 @@ impl S {
                         (Some(i), Some(f)) => snap.roots.get(i).map(|r| root_to_nat(r) == Some(*f)),
                         _ => None, // no active stage / malformed proof: must not answer
                     };
-                    if mk_v[n] != exp && !(mk_v[n].is_none() && exp == Some(false)) {
+                    if mk_v[n] != exp {
                         self.viol("q", "merkle-has-member-not-from-active-root", format!("now {now}: HasMember#{n}={:?}, expected {:?} (active {:?})", mk_v[n], exp, want));
                     }
                     if want.is_none() && mk_v[n].is_some() {
                         self.viol("q", "merkle-member-without-active-stage", format!("now {now}: HasMember#{n}={:?}", mk_v[n]));
+                    }
+                    if exp == Some(true) {
+                        self.marks.push("merkle:mk:true".into());
+                    } else if exp == Some(false) && f.is_some() && snap.roots.iter().any(|r| root_to_nat(r) == *f) {
+                        self.marks.push("merkle:mk:false-proof-of-another-stage".into());
                     }
                 }
             }
         }
 
         let out = format!(
-            "ok act={} is={} hs={} he={} cfg={cfg_s} as={as_s} sl={sl} st={} hm={hm} mb={mb} smi={smi} asmi={asmi} ms={ms} adm={} ce={ce} mk={mk} roots={roots_s}",
+            "ok act={} is={} cfg={cfg_p} as={as_p} sl={sl_p} st={} hm={hm} mb={mb} smi={smi} asmi={asmi} ms={ms} n={} mk={mk} roots={roots_s} ## hs={} he={} cfgx={cfg_x} asx={as_x} slx={sl_x} sx={} smip={smip} smio={smio} asmip={asmip} lim={} adm={} ce={ce}",
             act.map(|x| x.to_string()).unwrap_or("e".into()),
             ob(is),
+            qs.iter().map(|x| x.0.clone()).collect::<Vec<_>>().join(";"),
+            cfg.as_ref().map(|c| c["num_members"].as_u64().unwrap_or(0).to_string()).unwrap_or("e".into()),
             ob(hs),
             ob(he),
-            st.join(";"),
+            qs.iter().map(|x| x.1.clone()).collect::<Vec<_>>().join(";"),
+            cfg.as_ref().map(|c| c["member_limit"].as_u64().unwrap_or(0).to_string()).unwrap_or("e".into()),
             self.admin_str()
         );
         let model_line = if lb || folded.is_empty() {
@@ -762,13 +1335,21 @@ impl Sut for S {
         if op == "q" {
             self.exec_query(line)
         } else {
-            let out = self.exec_msg(line);
-            (line.to_string(), out)
+            self.exec_msg(line)
         }
     }
     fn monitor(&mut self) -> Option<(String, String)> {
         self.pending.take()
     }
+}
+
+/// `ses.step` + hand the classes the SUT observed to the session
+fn step(ses: &mut Session, sut: &mut S, line: &str) -> String {
+    let out = ses.step(sut, line);
+    for m in sut.marks.drain(..) {
+        ses.mark(m);
+    }
+    out
 }
 
 // ------------------------------------------------------------------------------------------------ generators
@@ -1041,6 +1622,41 @@ fn main() {
     let mut rng = ses.rng.fork();
     let variants = [V::Plain, V::Flex, V::Merkle];
     let probes: Vec<u64> = vec![10, 11, 12, 15, 19];
+    // + a string that is not an address
+    let probes0: Vec<u64> = vec![10, 11, 12, 15, 19, 0];
+
+    // ------------------------------------------------------------------ coverage floor: without these the run is vacuous
+    for v in ["plain", "flex", "merkle"] {
+        ses.require(format!("floor:{v}:inst-ok"));
+        for pos in ["before", "in0", "touch0", "in1", "between", "in2", "after"] {
+            ses.require(format!("floor:{v}:q:{pos}"));
+        }
+        ses.require(format!("{v}:q:two-windows-touch"));
+        ses.require(format!("floor:{v}:update:touch:ok"));
+        ses.require(format!("floor:{v}:update:overlap:err"));
+        ses.require(format!("surface:{v}:enumerated"));
+        ses.require(format!("surface:{v}:bogus-message:rejected"));
+        ses.require(format!("floor:{v}:started-stage-survives-surface"));
+    }
+    for v in ["plain", "flex"] {
+        ses.require(format!("floor:{v}:remove:rel-1:ok"));
+        ses.require(format!("floor:{v}:remove:rel0:err"));
+        ses.require(format!("floor:{v}:remove:rel-1:stranger:err"));
+        ses.require(format!("floor:{v}:add_stage:first-starts-now:err"));
+        ses.require(format!("floor:{v}:add_stage:first-in-future:ok"));
+        ses.require(format!("floor:{v}:add_stage:first-already-started:err"));
+        ses.require(format!("{v}:remove-ok:largest-stage:>100"));
+        ses.require(format!("{v}:remove-ok:largest-stage:>25"));
+        ses.require(format!("{v}:q:members-paged:>100"));
+        ses.require(format!("{v}:q:members-paged:>25"));
+        ses.require(format!("{v}:hm:true"));
+        ses.require(format!("{v}:hm:false-though-member-of-another-stage"));
+        ses.require(format!("{v}:hm:false-though-member-of-a-stage-none-active"));
+    }
+    ses.require("merkle:mk:true");
+    ses.require("merkle:mk:false-proof-of-another-stage");
+    ses.require("floor:merkle:migrate:accepted");
+    ses.require("snap-ok:");
 
     // ------------------------------------------------------------------ A. window-shape grid at instantiate
     // all stage lists over endpoints {1..4} (start,end both free: touching, nested, reversed, equal, gaps, swapped),
@@ -1056,7 +1672,7 @@ fn main() {
                 lists.push(vec![*a, *b]);
             }
         }
-        let n3 = ses.scale(350, 4096);
+        let n3 = ses.scale(700, 4096);
         if n3 >= 4096 {
             for a in &grid {
                 for b in &grid {
@@ -1089,11 +1705,12 @@ fn main() {
                     let nows: Vec<u64> = if ses.tier() == Tier::Quick { vec![*rng.pick(&[0u64, 0, 1, 2])] } else { vec![0, 1, 2] };
                     for n in nows {
                         let now = T0 + n;
-                        let out = ses.step(&mut sut, &std_inst(v, now, &stages, &mut mk));
+                        let out = step(&mut ses, &mut sut, &std_inst(v, now, &stages, &mut mk));
                         ses.mark(format!("{}:inst:{}:{}:first{}", v.name(), shape_of(&stages), outcome(&out), (stages[0].start as i128 - now as i128).signum()));
                         if out.starts_with("ok") {
+                            ses.mark(format!("floor:{}:inst-ok", v.name()));
                             for t in 0..=6u64 {
-                                ses.step(&mut sut, &q_line(v, T0 + t, &probes, &mk, &mut rng));
+                                step(&mut ses, &mut sut, &q_line(v, T0 + t, &probes, &mk, &mut rng));
                                 ses.mark(format!("{}:q:{}", v.name(), clock_class(&stages, T0 + t)));
                             }
                         }
@@ -1102,6 +1719,37 @@ fn main() {
                 ses.end_case();
             }
         }
+    }
+
+    // ------------------------------------------------------------------ A2. three-stage chains with gaps (the 4-point grid cannot express them)
+    // every joint ∈ {touching, 1 ns gap, 2 ns gap} × every stage length ∈ {1, 2}; queried at EVERY instant from before the
+    // first start to after the last end (= every edge −1/0/+1 ns and every gap instant).
+    for v in variants {
+        let mut mk = MerkleCtx { trees: vec![] };
+        ses.begin_case(&mut sut, &format!("case v={} gap-chains", v.name()));
+        for code in 0..(3 * 3 * 8u64) {
+            let (g1, g2, lens) = (code % 3, (code / 3) % 3, code / 9);
+            let l = |i: u64| 1 + ((lens >> i) & 1);
+            let s0 = T0 + 2;
+            let e0 = s0 + l(0);
+            let s1 = e0 + g1;
+            let e1 = s1 + l(1);
+            let s2 = e1 + g2;
+            let e2 = s2 + l(2);
+            let stages = vec![default_stage(0, s0, e0), default_stage(1, s1, e1), default_stage(2, s2, e2)];
+            if ses.tier() == Tier::Quick && !(lens == 7 || lens == ses.args.seed % 7) {
+                continue;
+            }
+            let out = step(&mut ses, &mut sut, &std_inst(v, T0 + *rng.pick(&[0u64, 1]), &stages, &mut mk));
+            ses.mark(format!("{}:inst3:{}:{}", v.name(), shape_of(&stages), outcome(&out)));
+            for t in (T0 + 1)..=(e2 + 1) {
+                step(&mut ses, &mut sut, &q_line(v, t, &probes0, &mk, &mut rng));
+                let cc = clock_class(&stages, t);
+                ses.mark(format!("floor:{}:q:{}", v.name(), cc.split(':').next().unwrap_or("")));
+                ses.mark(format!("{}:q3:{}", v.name(), cc));
+            }
+        }
+        ses.end_case();
     }
 
     // ------------------------------------------------------------------ B. update_stage_config grid
@@ -1118,7 +1766,7 @@ fn main() {
                     if field == "both" && !rng.chance(ses.scale(1, 3), 3) {
                         continue;
                     }
-                    ses.step(&mut sut, &std_inst(v, T0, &base, &mut mk));
+                    step(&mut ses, &mut sut, &std_inst(v, T0, &base, &mut mk));
                     let now = T0 + *rng.pick(&[0u64, 3, 4, 5, 7, 11]);
                     let (s, e) = match field {
                         "start" => (Some(T0 + x), None),
@@ -1126,7 +1774,7 @@ fn main() {
                         _ => (Some(T0 + x), Some(T0 + rng.range(0, 12))),
                     };
                     let line = format!("update_stage now={now} sender={ADMIN} id={id} name=- start={} stop={} price=- pal=- mcl=-", fmt_opt(&s), fmt_opt(&e));
-                    let out = ses.step(&mut sut, &line);
+                    let out = step(&mut ses, &mut sut, &line);
                     let mut after = base.clone();
                     if (id as usize) < after.len() {
                         if let Some(s) = s {
@@ -1137,13 +1785,19 @@ fn main() {
                         }
                     }
                     ses.mark(format!("{}:update:{field}:id{id}:{}:{}", v.name(), shape_of(&after), outcome(&out)));
+                    if field == "start" && id == 1 && *x == 4 && out.starts_with("ok") {
+                        ses.mark(format!("floor:{}:update:touch:ok", v.name()));
+                    }
+                    if field == "start" && id == 1 && *x == 3 && out.starts_with("err") {
+                        ses.mark(format!("floor:{}:update:overlap:err", v.name()));
+                    }
                     let cur = if out.starts_with("ok") { after } else { base.clone() };
                     let ts = edges(&cur);
                     let take = if ses.tier() == Tier::Quick { 4 } else { ts.len() };
                     let mut ts2 = ts.clone();
                     rng.shuffle(&mut ts2);
                     for t in ts2.into_iter().take(take) {
-                        ses.step(&mut sut, &q_line(v, t, &probes, &mk, &mut rng));
+                        step(&mut ses, &mut sut, &q_line(v, t, &probes, &mk, &mut rng));
                         ses.mark(format!("{}:q:{}", v.name(), clock_class(&cur, t)));
                     }
                 }
@@ -1161,18 +1815,170 @@ fn main() {
         ts.insert(0, T0);
         for id in 0..4u64 {
             for t in &ts {
-                ses.step(&mut sut, &std_inst(v, T0, &base, &mut mk));
-                let sender = if rng.chance(1, 10) { STRANGER } else { ADMIN };
-                let out = ses.step(&mut sut, &format!("remove_stage now={t} sender={sender} id={id}"));
-                let rel = base.get(id as usize).map(|s| (*t as i128 - s.start as i128).clamp(-2, 2)).unwrap_or(99);
-                ses.mark(format!("{}:remove:id{id}:rel{rel}:{}:{}", v.name(), if sender == ADMIN { "admin" } else { "stranger" }, outcome(&out)));
-                ses.step(&mut sut, &q_line(v, *t, &probes, &mk, &mut rng));
-                if out.starts_with("ok") && v != V::Merkle {
-                    // re-add a stage after the truncation (first stage must be in the future again when the list became empty)
-                    let st = default_stage(5, t + rng.range(0, 2), t + 3);
-                    let o2 = ses.step(&mut sut, &format!("add_stage now={t} sender={ADMIN} stage={} members=12:3,15:1", st.line()));
-                    ses.mark(format!("{}:add-after-remove:id{id}:{}", v.name(), outcome(&o2)));
-                    ses.step(&mut sut, &q_line(v, t + 1, &probes, &mk, &mut rng));
+                for sender in [ADMIN, STRANGER] {
+                    let rel = base.get(id as usize).map(|s| (*t as i128 - s.start as i128).clamp(-2, 2)).unwrap_or(99);
+                    // the stranger only where the admin would be accepted (1 ns before the start) and at the start itself
+                    if sender == STRANGER && !(rel == -1 || rel == 0) {
+                        continue;
+                    }
+                    step(&mut ses, &mut sut, &std_inst(v, T0, &base, &mut mk));
+                    let out = step(&mut ses, &mut sut, &format!("remove_stage now={t} sender={sender} id={id}"));
+                    ses.mark(format!("{}:remove:id{id}:rel{rel}:{}:{}", v.name(), if sender == ADMIN { "admin" } else { "stranger" }, outcome(&out)));
+                    if id == 1 {
+                        ses.mark(format!("floor:{}:remove:rel{rel}:{}{}", v.name(), if sender == ADMIN { "" } else { "stranger:" }, outcome(&out)));
+                    }
+                    step(&mut ses, &mut sut, &q_line(v, *t, &probes0, &mk, &mut rng));
+                    if out.starts_with("ok") && v != V::Merkle {
+                        // re-add a stage after the truncation (first stage must be in the future again when the list became empty)
+                        let st = default_stage(5, t + rng.range(0, 2), t + 3);
+                        let o2 = step(&mut ses, &mut sut, &format!("add_stage now={t} sender={ADMIN} stage={} members=12:3,15:1", st.line()));
+                        ses.mark(format!("{}:add-after-remove:id{id}:{}", v.name(), outcome(&o2)));
+                        step(&mut ses, &mut sut, &q_line(v, t + 1, &probes, &mk, &mut rng));
+                    }
+                }
+            }
+        }
+        ses.end_case();
+    }
+
+    // ------------------------------------------------------------------ H. "the first stage starts in the future whenever stages are … added"
+    for v in [V::Plain, V::Flex] {
+        let mut mk = MerkleCtx { trees: vec![] };
+        ses.begin_case(&mut sut, &format!("case v={} add-stage-first-future", v.name()));
+        for empty_first in [true, false] {
+            step(&mut ses, &mut sut, &std_inst(v, T0, &[default_stage(0, T0 + 2, T0 + 4)], &mut mk));
+            if empty_first {
+                // the list becomes empty: the ADDED stage is the first one
+                step(&mut ses, &mut sut, &format!("remove_stage now={} sender={ADMIN} id=0", T0 + 1));
+                let o = step(&mut ses, &mut sut, &format!("add_stage now={} sender={ADMIN} stage={} members=12:3", T0 + 1, default_stage(1, T0 + 1, T0 + 3).line()));
+                ses.mark(format!("floor:{}:add_stage:first-starts-now:{}", v.name(), outcome(&o)));
+                let o = step(&mut ses, &mut sut, &format!("add_stage now={} sender={ADMIN} stage={} members=12:3", T0 + 1, default_stage(1, T0 + 2, T0 + 3).line()));
+                ses.mark(format!("floor:{}:add_stage:first-in-future:{}", v.name(), outcome(&o)));
+            } else {
+                // same block, same stage: rejected once the first stage has started (boundary: now = start), accepted 1 ns earlier
+                let st = default_stage(1, T0 + 5, T0 + 6);
+                let o = step(&mut ses, &mut sut, &format!("add_stage now={} sender={ADMIN} stage={} members=12:3", T0 + 2, st.line()));
+                ses.mark(format!("floor:{}:add_stage:first-already-started:{}", v.name(), outcome(&o)));
+                let o = step(&mut ses, &mut sut, &format!("add_stage now={} sender={ADMIN} stage={} members=12:3", T0 + 1, st.line()));
+                ses.mark(format!("floor:{}:add_stage:first-in-future:{}", v.name(), outcome(&o)));
+            }
+            for t in [T0 + 1, T0 + 2, T0 + 3, T0 + 5] {
+                step(&mut ses, &mut sut, &q_line(v, t, &probes0, &mk, &mut rng));
+            }
+        }
+        ses.end_case();
+    }
+
+    // ------------------------------------------------------------------ F. stages larger than the pagination limits (25 default, 100 max)
+    // 30 / 101 / 120 members in stages [2,4][4,6][8,10]; remove_stage at start−1 / start / start+1 ns, re-add, member edits
+    // across the 100 boundary. Every `q` pages `Members` to exhaustion and compares with the stored map.
+    for v in [V::Plain, V::Flex] {
+        let mk = MerkleCtx { trees: vec![] };
+        let base: Vec<St> = vec![default_stage(0, T0 + 2, T0 + 4), default_stage(1, T0 + 4, T0 + 6), default_stage(2, T0 + 8, T0 + 10)];
+        let cnt = |a: u128| if v == V::Flex { 1 + a % 5 } else { 1 };
+        let range = |lo: u128, n: u128| -> Vec<(u128, u128)> { (lo..lo + n).map(|a| (a, cnt(a))).collect() };
+        let members = vec![range(100, 30), range(200, 101), range(400, 120)];
+        let big_probes: Vec<u64> = vec![100, 125, 129, 200, 225, 299, 300, 400, 499, 500, 519, 600, 19, 0];
+        let inst = inst_line(v, T0, ADMIN, &[(0, fee_for(v, 400))], 400, None, &[ADMIN, ADMIN2], true, &base, &members, &[], false);
+        ses.begin_case(&mut sut, &format!("case v={} big-stages", v.name()));
+        // F1: observe, then remove stage 1 (and 2): at its start (rejected), 1 ns before (accepted, 221 entries go), re-add
+        step(&mut ses, &mut sut, &inst);
+        for t in [T0 + 1, T0 + 3, T0 + 4, T0 + 5, T0 + 9] {
+            step(&mut ses, &mut sut, &q_line(v, t, &big_probes, &mk, &mut rng));
+        }
+        let o = step(&mut ses, &mut sut, &format!("remove_stage now={} sender={ADMIN} id=1", T0 + 4));
+        ses.mark(format!("{}:big:remove1:at-start:{}", v.name(), outcome(&o)));
+        let o = step(&mut ses, &mut sut, &format!("remove_stage now={} sender={ADMIN} id=1", T0 + 3));
+        ses.mark(format!("{}:big:remove1:before-start:{}", v.name(), outcome(&o)));
+        for t in [T0 + 3, T0 + 5, T0 + 9] {
+            step(&mut ses, &mut sut, &q_line(v, t, &big_probes, &mk, &mut rng));
+        }
+        let o = step(&mut ses, &mut sut, &format!("add_stage now={} sender={ADMIN} stage={} members={}", T0 + 1, default_stage(3, T0 + 6, T0 + 8).line(), fmt_pairs(&range(600, 26))));
+        ses.mark(format!("{}:big:re-add:{}", v.name(), outcome(&o)));
+        for t in [T0 + 5, T0 + 7] {
+            step(&mut ses, &mut sut, &q_line(v, t, &big_probes, &mk, &mut rng));
+        }
+        // … and remove the re-added 26-member stage again (just above the default page size)
+        let o = step(&mut ses, &mut sut, &format!("remove_stage now={} sender={ADMIN} id=1", T0 + 1));
+        ses.mark(format!("{}:big:remove-readded:{}", v.name(), outcome(&o)));
+        step(&mut ses, &mut sut, &q_line(v, T0 + 7, &big_probes, &mk, &mut rng));
+        // F2: remove everything, then add a stage that re-uses some of the old addresses: only those are members again
+        step(&mut ses, &mut sut, &inst);
+        let o = step(&mut ses, &mut sut, &format!("remove_stage now={} sender={ADMIN} id=0", T0 + 1));
+        ses.mark(format!("{}:big:remove0:{}", v.name(), outcome(&o)));
+        step(&mut ses, &mut sut, &q_line(v, T0 + 3, &big_probes, &mk, &mut rng));
+        step(&mut ses, &mut sut, &format!("add_stage now={} sender={ADMIN} stage={} members={}", T0 + 1, default_stage(4, T0 + 3, T0 + 5).line(), fmt_pairs(&range(100, 30))));
+        for t in [T0 + 3, T0 + 4, T0 + 9] {
+            step(&mut ses, &mut sut, &q_line(v, t, &big_probes, &mk, &mut rng));
+        }
+        // F3: grow stage 2 across 100 → 150, shrink it, remove it 1 ns before it starts; exactly at / after its start: rejected
+        step(&mut ses, &mut sut, &inst);
+        step(&mut ses, &mut sut, &format!("add_members now={} sender={ADMIN} id=2 members={}", T0 + 1, fmt_pairs(&range(510, 40))));
+        step(&mut ses, &mut sut, &format!("remove_members now={} sender={ADMIN} id=2 addrs=400,401,519", T0 + 7));
+        step(&mut ses, &mut sut, &q_line(v, T0 + 9, &big_probes, &mk, &mut rng));
+        for t in [T0 + 9, T0 + 8, T0 + 7] {
+            let o = step(&mut ses, &mut sut, &format!("remove_stage now={t} sender={ADMIN} id=2"));
+            ses.mark(format!("{}:big:remove2:rel{}:{}", v.name(), t as i128 - (T0 + 8) as i128, outcome(&o)));
+            step(&mut ses, &mut sut, &q_line(v, T0 + 9, &big_probes, &mk, &mut rng));
+        }
+        ses.end_case();
+    }
+
+    // ------------------------------------------------------------------ G. the whole message surface, enumerated at run time
+    // `schema_for!(ExecuteMsg)` of each crate gives the variant names. Known ones are tied to protocol ops; every OTHER variant
+    // (a message this harness has never heard of) is SENT — raw JSON, minimal arguments from the schema — at clocks before /
+    // inside / between / after the stages, by admin and stranger, under the same monitors: whatever it does to the stage
+    // list and the member map is judged by the property (e.g. "a stage disappeared after it had started"). `migrate` (Merkle has
+    // the entry point) and a message that is certainly not in the enum go the same way.
+    for v in variants {
+        let mut mk = MerkleCtx { trees: vec![] };
+        let base: Vec<St> = vec![default_stage(0, T0 + 2, T0 + 4), default_stage(1, T0 + 4, T0 + 6), default_stage(2, T0 + 8, T0 + 10)];
+        let names: Vec<String> = sut.surface[v as usize].variants.iter().map(|(n, _)| n.clone()).collect();
+        if !names.is_empty() {
+            ses.mark(format!("surface:{}:enumerated", v.name()));
+        }
+        for (n, op) in known_variants(v) {
+            if names.iter().any(|x| x.as_str() == *n) {
+                ses.mark(format!("surface:{}:known:{n}={op}", v.name()));
+            } else {
+                ses.mark(format!("surface:{}:MISSING:{n}", v.name()));
+                ses.note(format!("surface: `{n}` is no longer a variant of the {} ExecuteMsg (the protocol op `{op}` will be rejected by the contract)", v.name()));
+            }
+        }
+        let unknown = sut.unknown_variants(v);
+        for u in &unknown {
+            ses.mark(format!("surface:{}:UNKNOWN:{u}", v.name()));
+            ses.note(format!("surface: the {} ExecuteMsg has a variant `{u}` this harness has no protocol op for — it is sent as raw JSON under the monitors", v.name()));
+        }
+        ses.begin_case(&mut sut, &format!("case v={} surface", v.name()));
+        let mut sends: Vec<String> = vec![format!("migrate now=@ sender={MIGRATOR}"), format!("unk now=@ sender={ADMIN} name=c13_no_such_message arg=0")];
+        for u in &unknown {
+            for arg in 0..8u64 {
+                for sender in [ADMIN, STRANGER] {
+                    sends.push(format!("unk now=@ sender={sender} name={u} arg={arg}"));
+                }
+            }
+        }
+        for clock in [T0 + 1, T0 + 2, T0 + 3, T0 + 4, T0 + 7, T0 + 9, T0 + 11] {
+            for send in &sends {
+                step(&mut ses, &mut sut, &std_inst(v, T0, &base, &mut mk));
+                let before = sut.pre.as_ref().map(|p| p.stages.len()).unwrap_or(0);
+                let line = send.replace("now=@", &format!("now={clock}"));
+                let out = step(&mut ses, &mut sut, &line);
+                let accepted = out.contains(" res=1");
+                let after = sut.pre.as_ref().map(|p| p.stages.len()).unwrap_or(0);
+                if line.starts_with("migrate") {
+                    ses.mark(format!("floor:{}:migrate:{}", v.name(), if accepted { "accepted" } else { "rejected" }));
+                } else if line.contains("c13_no_such_message") {
+                    ses.mark(format!("surface:{}:bogus-message:{}", v.name(), if accepted { "ACCEPTED" } else { "rejected" }));
+                } else {
+                    ses.mark(format!("surface:{}:unknown-sent:{}:{}", v.name(), kv(&line, "name").unwrap_or("?"), if accepted { "accepted" } else { "rejected" }));
+                }
+                if clock >= T0 + 2 && after == before && before == 3 {
+                    ses.mark(format!("floor:{}:started-stage-survives-surface", v.name()));
+                }
+                for t in [clock, T0 + 4, T0 + 9] {
+                    step(&mut ses, &mut sut, &q_line(v, t, &probes0, &mk, &mut rng));
                 }
             }
         }
@@ -1195,7 +2001,7 @@ fn main() {
                 ses.begin_case(&mut sut, &format!("case v={} exhaustive depth={depth} from={n}", v.name()));
                 let hi = (n + 50).min(total);
                 for code in n..hi {
-                    ses.step(&mut sut, &std_inst(v, T0, &base, &mut mk));
+                    step(&mut ses, &mut sut, &std_inst(v, T0, &base, &mut mk));
                     let mut c = code;
                     let mut tag = String::new();
                     for _ in 0..depth {
@@ -1218,7 +2024,7 @@ fn main() {
                             "upd_eq" => format!("update_stage now={now} sender={ADMIN} id=0 name=- start=- stop={} price=- pal=- mcl=-", first_start),
                             _ => format!("add_members now={now} sender={ADMIN} id=1 members=12:2"),
                         };
-                        let out = ses.step(&mut sut, &line);
+                        let out = step(&mut ses, &mut sut, &line);
                         tag.push_str(&format!("{}{}{}.", syms[si], if at_start { "@" } else { "<" }, if out.starts_with("ok") { "+" } else { "-" }));
                     }
                     ses.mark(format!("{}:seq:{tag}", v.name()));
@@ -1232,7 +2038,7 @@ fn main() {
                         ts.truncate(2);
                     }
                     for t in ts {
-                        ses.step(&mut sut, &q_line(v, t, &probes, &mk, &mut rng));
+                        step(&mut ses, &mut sut, &q_line(v, t, &probes, &mk, &mut rng));
                     }
                 }
                 ses.end_case();
@@ -1243,7 +2049,7 @@ fn main() {
     }
 
     // ------------------------------------------------------------------ D. random histories (mostly valid, single faults, boundary clock)
-    let n_traces = ses.scale(450, 9000);
+    let n_traces = ses.scale(1200, 9000);
     for tr in 0..n_traces {
         let v = variants[(tr % 3) as usize];
         let mut mk = MerkleCtx { trees: vec![] };
@@ -1349,7 +2155,7 @@ fn main() {
                     limit |= 1; // odd ⇒ a valid tree URI is supplied
                 }
                 let line = inst_line(v, now, ADMIN, &funds, limit, whale, &adm, !rng.chance(1, 6), &stages, &members, &roots, uribad);
-                let out = ses.step(&mut sut, &line);
+                let out = step(&mut ses, &mut sut, &line);
                 ses.mark(format!("{}:inst:{}:{fault}:{}", v.name(), shape_of(&stages), outcome(&out)));
                 if out.starts_with("ok") {
                     alive = true;
@@ -1366,6 +2172,12 @@ fn main() {
             }
             let sender = if rng.chance(1, 10) { STRANGER } else { *rng.pick(&admins) };
             let who = if sender == STRANGER { "stranger" } else { "admin" };
+            if rng.chance(3, 100) {
+                let line = if rng.chance(1, 2) { format!("migrate now={now} sender={MIGRATOR}") } else { format!("unk now={now} sender={sender} name=c13_no_such_message arg={}", rng.below(8)) };
+                let out = step(&mut ses, &mut sut, &line);
+                ses.mark(format!("{}:{}:{}", v.name(), line.split(' ').next().unwrap_or(""), if out.contains(" res=1") { "accepted" } else { "rejected" }));
+                continue;
+            }
             let mut k = rng.below(100);
             if v == V::Merkle && (45..55).contains(&k) || v == V::Merkle && (75..95).contains(&k) {
                 // list-based messages do not exist on the Merkle contract: keep a few (they must be rejected), re-draw the rest
@@ -1387,7 +2199,7 @@ fn main() {
                 }
             }
             if k < 30 {
-                let out = ses.step(&mut sut, &q_line(v, now, &probes, &mk, &mut rng));
+                let out = step(&mut ses, &mut sut, &q_line(v, now, if rng.chance(1, 3) { &probes0 } else { &probes }, &mk, &mut rng));
                 ses.mark(format!("{}:q:{}:{}", v.name(), clock_class(&cur, now), outcome(&out)));
             } else if k < 45 {
                 // add_stage: valid = after the last stage (touching or gap), in the future when the list is empty
@@ -1415,14 +2227,14 @@ fn main() {
                 }
                 let nm = rng.range(0, 3);
                 let members: Vec<(u128, u128)> = (0..nm).map(|_| (*rng.pick(&POOL) as u128, rng.range(1, 9) as u128)).collect();
-                let out = ses.step(&mut sut, &format!("add_stage now={now} sender={sender} stage={} members={}", st.line(), fmt_pairs(&members)));
+                let out = step(&mut ses, &mut sut, &format!("add_stage now={now} sender={sender} stage={} members={}", st.line(), fmt_pairs(&members)));
                 ses.mark(format!("{}:add_stage:have{}:{fault}:{who}:{}", v.name(), cur.len(), outcome(&out)));
                 if out.starts_with("ok") {
                     cur.push(st);
                 }
             } else if k < 55 {
                 let id = if rng.chance(1, 6) { rng.below(4) } else { target_id };
-                let out = ses.step(&mut sut, &format!("remove_stage now={now} sender={sender} id={id}"));
+                let out = step(&mut ses, &mut sut, &format!("remove_stage now={now} sender={sender} id={id}"));
                 let rel = cur.get(id as usize).map(|s| (now as i128 - s.start as i128).clamp(-2, 2)).unwrap_or(99);
                 ses.mark(format!("{}:remove_stage:rel{rel}:{who}:{}", v.name(), outcome(&out)));
                 if out.starts_with("ok") {
@@ -1442,7 +2254,7 @@ fn main() {
                 let mcl = if rng.chance(1, 5) { Some(rng.range(0, 90)) } else { None };
                 let nm = if rng.chance(1, 5) { Some(rng.range(0, 9)) } else { None };
                 let line = format!("update_stage now={now} sender={sender} id={id} name={} start={} stop={} price={price} pal={} mcl={}", fmt_opt(&nm), fmt_opt(&s), fmt_opt(&e), fmt_opt(&pal), fmt_opt(&mcl));
-                let out = ses.step(&mut sut, &line);
+                let out = step(&mut ses, &mut sut, &line);
                 let mut after = cur.clone();
                 if let Some(st) = after.get_mut(id as usize) {
                     if let Some(s) = s { st.start = s; }
@@ -1457,13 +2269,13 @@ fn main() {
                 let nm = rng.range(1, 3);
                 let mut members: Vec<(u128, u128)> = (0..nm).map(|_| (*rng.pick(&POOL) as u128, rng.range(1, 9) as u128)).collect();
                 if rng.chance(1, 10) { members.push((0, 1)); }
-                let out = ses.step(&mut sut, &format!("add_members now={now} sender={sender} id={id} members={}", fmt_pairs(&members)));
+                let out = step(&mut ses, &mut sut, &format!("add_members now={now} sender={sender} id={id} members={}", fmt_pairs(&members)));
                 ses.mark(format!("{}:add_members:{}:{who}:{}", v.name(), if (id as usize) < cur.len() { "stage-ok" } else { "no-stage" }, outcome(&out)));
             } else if k < 92 {
                 let id = target_id;
                 let nm = rng.range(1, 2);
                 // aim at members the contract really lists for that stage (state-dependent generation), 1 in 4 arbitrary
-                let present: Vec<u64> = sut.pre.as_ref().and_then(|p| p.members.get(id as usize).cloned()).unwrap_or_default().iter().map(|(a, _)| *a).collect();
+                let present: Vec<u64> = sut.pre.as_ref().map(|p| p.of_stage(id)).unwrap_or_default().iter().map(|(a, _)| *a).collect();
                 let mut addrs: Vec<u64> = vec![];
                 for _ in 0..nm {
                     let a = if !present.is_empty() && !rng.chance(1, 4) { *rng.pick(&present) } else { *rng.pick(&POOL) };
@@ -1471,7 +2283,7 @@ fn main() {
                         addrs.push(a);
                     }
                 }
-                let out = ses.step(&mut sut, &format!("remove_members now={now} sender={sender} id={id} addrs={}", fmt_list(&addrs)));
+                let out = step(&mut ses, &mut sut, &format!("remove_members now={now} sender={sender} id={id} addrs={}", fmt_list(&addrs)));
                 let rel = cur.get(id as usize).map(|s| (now as i128 - s.start as i128).clamp(-2, 2)).unwrap_or(99);
                 ses.mark(format!("{}:remove_members:rel{rel}:{who}:{}", v.name(), outcome(&out)));
             } else if k < 95 {
@@ -1482,26 +2294,26 @@ fn main() {
                     1 => vec![],
                     _ => if fee == 0 { vec![] } else { vec![(0, fee)] },
                 };
-                let out = ses.step(&mut sut, &format!("increase_limit now={now} sender={sender} funds={} limit={nl}", fmt_pairs(&funds)));
+                let out = step(&mut ses, &mut sut, &format!("increase_limit now={now} sender={sender} funds={} limit={nl}", fmt_pairs(&funds)));
                 ses.mark(format!("{}:increase_limit:{}", v.name(), outcome(&out)));
                 if out.starts_with("ok") {
                     limit = nl;
                 }
             } else if k < 98 {
                 let na: Vec<u64> = match rng.below(4) { 0 => vec![ADMIN], 1 => vec![ADMIN2, ADMIN], 2 => vec![ADMIN, 0], _ => vec![ADMIN2] };
-                let out = ses.step(&mut sut, &format!("update_admins now={now} sender={sender} admins={}", fmt_list(&na)));
+                let out = step(&mut ses, &mut sut, &format!("update_admins now={now} sender={sender} admins={}", fmt_list(&na)));
                 ses.mark(format!("{}:update_admins:{who}:{}", v.name(), outcome(&out)));
                 if out.starts_with("ok") {
                     admins = na;
                 }
             } else {
-                let out = ses.step(&mut sut, &format!("freeze now={now} sender={sender}"));
+                let out = step(&mut ses, &mut sut, &format!("freeze now={now} sender={sender}"));
                 ses.mark(format!("{}:freeze:{who}:{}", v.name(), outcome(&out)));
             }
             // every message is followed, with probability 1/2, by a full observation at an edge instant
             if rng.chance(1, 2) {
                 let t = if cur.is_empty() || rng.chance(1, 4) { now } else { *rng.pick(&edges(&cur)) };
-                let out = ses.step(&mut sut, &q_line(v, t, &probes, &mk, &mut rng));
+                let out = step(&mut ses, &mut sut, &q_line(v, t, &probes, &mk, &mut rng));
                 ses.mark(format!("{}:q:{}:{}", v.name(), clock_class(&cur, t), outcome(&out)));
             }
         }
@@ -1511,5 +2323,10 @@ fn main() {
     ses.note("clock: block time is set per line; queries are issued at every stage edge −1/0/+1 ns (grids) or at a random edge ±1 ns with probability ≥ 1/2 (random histories)");
     ses.note("window shapes: all stage lists over a 4-point endpoint grid (touching, nested, reversed, equal endpoints, gaps, swapped order) at instantiate; every single-edge move 0..12 at update_stage_config; mutations at add_stage");
     ses.note("Merkle: 1–2 element trees built with rs_merkle (16-byte truncated BLAKE3, sorted pairs); the proof fold is re-computed by the harness and passed to the model as witness `folded=`");
+    ses.note("projection: outputs are `primary ## drift`; primary = accept/reject of the stage messages, stage windows/denom/price/per-address limit, num_members, stored member map, Merkle roots, active-stage and membership answers; everything else is drift");
+    ses.note("big stages: 30/101/120 (+40, +26) members per stage, `Members` paged to exhaustion (default page and limit 100) against the typed storage dump");
+    for n in sut.notes.clone() {
+        ses.note(n);
+    }
     ses.finish(&mut sut);
 }
